@@ -189,6 +189,8 @@ class DESolver:
         if verbose:
             self.printHeader()
 
+        #Python floats: a reduced-precision start or end time (e.g. np.float32) would keep the whole clock in that type
+        t0, tf = float(t0), float(tf)
         self._dtmin = self.dtmin * (tf - t0)
         self._dtmax = self.dtmax * (tf - t0)
         currTime = t0
